@@ -860,6 +860,38 @@ type oline struct {
 	x, w  pr.Fl // the line box
 	brk   bool  // holds a forced break
 	frags []frag
+	boxes []ibox
+}
+
+// an inline box of a line with at least one in-flow child: its content area (from the box's own
+// position, edges and width) and the extent of its children (margin boxes), all as laid out
+type ibox struct {
+	cl, cr pr.Fl // content-box left / right of the inline box
+	kl, kr pr.Fl // left of the first in-flow child, right of the last one
+}
+
+func inlineBoxes(l bo.Box, out *[]ibox) {
+	for _, c := range l.Box().Children {
+		if !c.Box().IsInNormalFlow() {
+			continue
+		}
+		ib, ok := c.(*bo.InlineBox)
+		if !ok {
+			continue
+		}
+		var kids []bo.Box
+		for _, k := range ib.Children {
+			if k.Box().IsInNormalFlow() {
+				kids = append(kids, k)
+			}
+		}
+		if len(kids) != 0 {
+			f, la := kids[0].Box(), kids[len(kids)-1].Box()
+			*out = append(*out, ibox{cl: pr.Fl(ib.ContentBoxX()), cr: pr.Fl(ib.ContentBoxX() + ib.Width.V()),
+				kl: pr.Fl(f.PositionX), kr: pr.Fl(la.PositionX + la.MarginWidth())})
+		}
+		inlineBoxes(c, out)
+	}
 }
 
 func collect(b bo.Box, out *[]frag) {
@@ -919,6 +951,7 @@ func observe(p bo.Box) []oline {
 		}
 		ol := oline{y: pr.Fl(l.Box().PositionY), h: pr.Fl(l.Box().Height.V()), x: pr.Fl(l.Box().PositionX), w: pr.Fl(l.Box().Width.V())}
 		collect(l, &ol.frags)
+		inlineBoxes(l, &ol.boxes)
 		ol.brk = hasBreak(l)
 		if len(ol.frags) == 0 && ol.h == 0 && ol.w == 0 && !hasEdgesOrBreak(l) {
 			// CSS 2.1 9.4.2: a line box without text, preserved white space, inline box
@@ -1609,6 +1642,23 @@ func (rn *runner) runBlocks(bs []block, its [][]item, engine, kind string, o doc
 			Tags:       append(append(append([]string{}, tags...), fmt.Sprintf("lines=%d", min(len(ls), 4))), symptoms(ps[i], ls, pr.Fl(w), items, p.Em)...),
 			Nontrivial: len(ls) >= 2,
 		})
+		// the inline boxes of the paragraph's lines against their own children (kind ibox)
+		var bxs, bdesc []string
+		for k, l := range ls {
+			for _, b := range l.boxes {
+				bxs = append(bxs, fmt.Sprintf("mkIB %s %s %s %s", vlib.Q32(b.cl), vlib.Q32(b.cr), vlib.Q32(b.kl), vlib.Q32(b.kr)))
+				bdesc = append(bdesc, fmt.Sprintf("line %d: inline box content x=[%v, %v], its children x=[%v, %v]", k, b.cl, b.cr, b.kl, b.kr))
+			}
+		}
+		if len(bxs) != 0 {
+			bd := map[string]interface{}{"engine": engine, "width": w, "p_style": p.style(w), "inner_html": p.inner(),
+				"impl_lines": descLines(ls), "inline_boxes": bdesc, "para": p}
+			if len(dtags) > 0 {
+				bd["block"], bd["document"] = i, html
+			}
+			rn.w.Add(vlib.Case{Kind: "ibox", Coq: "CBoxes " + vlib.List(bxs), Desc: bd,
+				Tags: append([]string{}, tags...), Nontrivial: len(ls) >= 2})
+		}
 	}
 }
 
@@ -1866,6 +1916,139 @@ func probeFile(path, engine string) {
 	}
 }
 
+// ---------------------------------------------------------------- vertical-align stream
+
+var vaValues = []string{"baseline", "top", "top", "top", "bottom", "bottom", "bottom", "middle", "sub", "super", "text-top", "text-bottom"}
+
+// inline content: words, spans with their own vertical-align and line-height (nested up to
+// depth 3: boxes aligned top / bottom inside boxes aligned top / bottom), inline-blocks
+func genVAlign(r *vlib.Rng, em, lh, depth int, sb *strings.Builder) {
+	for i, n := 0, r.Range(1, 4); i < n; i++ {
+		if i > 0 {
+			sb.WriteString(" ")
+		}
+		switch k := r.Intn(10); {
+		case k < 4 || depth >= 3:
+			sb.WriteString(word(r, 4))
+		case k < 9:
+			l := lh * vlib.Pick(r, []int{1, 1, 2, 3, 4})
+			if r.Chance(1, 4) {
+				l = em * r.Range(0, 5)
+			}
+			fmt.Fprintf(sb, `<span style="vertical-align:%s;line-height:%dpx">`, vlib.Pick(r, vaValues), l)
+			genVAlign(r, em, lh, depth+1, sb)
+			sb.WriteString("</span>")
+		default:
+			fmt.Fprintf(sb, `<span style="display:inline-block;width:%dpx;height:%dpx;vertical-align:%s"></span>`,
+				em*r.Range(1, 3), vlib.Pick(r, []int{em / 5, em, lh, 2 * lh, 3*lh + em/5}), vlib.Pick(r, vaValues))
+		}
+	}
+}
+
+// px value of a declaration in the style attribute of the box's element (-1: none)
+func stylePx(b bo.Box, prop string) int {
+	e := b.Box().Element
+	if e == nil {
+		return -1
+	}
+	for _, a := range e.Attr {
+		if a.Key != "style" {
+			continue
+		}
+		for _, d := range strings.Split(a.Val, ";") {
+			if kv := strings.SplitN(d, ":", 2); len(kv) == 2 && strings.TrimSpace(kv[0]) == prop {
+				var v int
+				if _, err := fmt.Sscanf(strings.TrimSpace(kv[1]), "%dpx", &v); err == nil {
+					return v
+				}
+			}
+		}
+	}
+	return -1
+}
+
+// the heights a line box must contain (CSS 2.1 10.8): the line-height, as the SOURCE declares
+// it, of every inline box that has a non-empty text box of its own on the line, and the declared
+// height of every inline-block on it
+func vertReqs(b bo.Box, lh int, out *[]int) {
+	for _, c := range b.Box().Children {
+		switch t := c.(type) {
+		case *bo.TextBox:
+			if len(t.Text) != 0 {
+				*out = append(*out, lh)
+			}
+		case *bo.InlineBlockBox:
+			if h := stylePx(t, "height"); h >= 0 {
+				*out = append(*out, h)
+			}
+		case *bo.InlineBox:
+			l := lh
+			if v := stylePx(t, "line-height"); v >= 0 {
+				l = v
+			}
+			vertReqs(t, l, out)
+		}
+	}
+}
+
+// valign stream (kind vert): only the inequality "a line box is as tall as every box on it"
+// and the stacking of the lines are evaluated: the model has no vertical-align
+func (rn *runner) runVAlign(r *vlib.Rng, engine string) {
+	em := vlib.Pick(r, []int{5, 10, 10, 20})
+	lh := em * vlib.Pick(r, []int{1, 1, 2})
+	var in strings.Builder
+	genVAlign(r, em, lh, 0, &in)
+	var sb strings.Builder
+	sb.WriteString("<html><head><style>@page{size:2000px 100000px;margin:0}html,body{margin:0;padding:0}p{margin:0 0 7px 0}</style></head><body>")
+	nw := r.Range(2, 4)
+	for i := 0; i < nw; i++ {
+		fmt.Fprintf(&sb, `<p style="font:%dpx/%dpx Ahem;width:%dpx">%s</p>`, em, lh, em*r.Range(3, 30), in.String())
+	}
+	sb.WriteString("</body></html>")
+	html := sb.String()
+	fc := rn.fc(engine)
+	var (
+		pages []*bo.PageBox
+		err   error
+	)
+	out := render.Guard(func() {
+		pages, err = render.Layout(html, nil, false, true, fc)
+	})
+	tags := []string{"engine=" + engine, "valign"}
+	if out.Status != "ok" || err != nil || len(pages) != 1 {
+		rn.w.Add(vlib.Case{Kind: "vert", Coq: "CBad 2", Desc: map[string]interface{}{"engine": engine, "html": html, "status": out.Status, "panic": out.Msg, "site": out.Site},
+			Tags: append(tags, "layout-failed", "site="+out.Site), Nontrivial: true})
+		delete(rn.fonts, engine)
+		return
+	}
+	for _, p := range paragraphs(pages[0]) {
+		var ls, desc []string
+		for _, l := range p.Box().Children {
+			if !bo.LineT.IsInstance(l) {
+				continue
+			}
+			var reqs []int
+			vertReqs(l, lh, &reqs)
+			if len(reqs) == 0 {
+				continue // nothing the line must contain (a line of collapsed white space)
+			}
+			var qs []string
+			for _, q := range reqs {
+				qs = append(qs, fmt.Sprintf("(%d # 1)", q))
+			}
+			y, h := pr.Fl(l.Box().PositionY), pr.Fl(l.Box().Height.V())
+			ls = append(ls, fmt.Sprintf("mkVL %s %s %s", vlib.Q32(y), vlib.Q32(h), vlib.List(qs)))
+			desc = append(desc, fmt.Sprintf("line y=%v height=%v must contain boxes of heights %v", y, h, reqs))
+		}
+		if len(ls) == 0 {
+			continue
+		}
+		rn.w.Add(vlib.Case{Kind: "vert", Coq: "CVert " + vlib.List(ls),
+			Desc: map[string]interface{}{"engine": engine, "document": html, "p_style": fmt.Sprint(p.Box().Element.Attr), "lines": desc},
+			Tags: append(append([]string{}, tags...), fmt.Sprintf("lines=%d", min(len(ls), 4))), Nontrivial: len(ls) >= 2})
+	}
+}
+
 var forceMode string
 
 func main() {
@@ -1892,11 +2075,17 @@ func main() {
 		rn.runCorpus(f)
 	}
 
+	// the valign stream draws from a generator of its own: the documents of the other streams
+	// are those of the earlier rounds
+	vrng := vlib.NewRng(vlib.Seed() ^ 0x76616c69676e)
 	for w.N() < *n {
 		r := rng.Fork()
 		engine := "pango"
 		if thorough && r.Chance(1, 2) {
 			engine = "gotext"
+		}
+		if vrng.Chance(1, 3) {
+			rn.runVAlign(vrng.Fork(), engine)
 		}
 		switch k := r.Intn(20); {
 		case k < 10:
